@@ -29,7 +29,12 @@ MANIFEST = dict(
          "list of this one item, so name[0] / name[-1] / name[last()] (any spelling of 0 or -1) address the existing node "
          "itself; C02_set_hidden_list proves, unbounded, that such an assignment on the single value of a key replaces "
          "exactly that slot (the former finding C02-a, where the write went into a temporary list: C02_set_hidden_list_ok; "
-         "a single value that is an element of a list and indexes written as steps of their own are instances + "
+         "C02_set_hidden_own_step: the index written as a step of its own, P/[0], on the single value at any plain position P, "
+         "a list element included; C02_set_hidden_elem: q0[i][0] on a single value that is element i of a list; "
+         "C02_set_hidden_middle: name[0]/k2/p2 with name a dict and k2/p2 an existing node below it - each is exactly setAt, "
+         "unbounded; C02_set_hidden_middle_own (P/[0]/k2/p2) and C02_set_hidden_middle_elem (q0[i][0]/k2/p2) likewise; C02_set_hidden_row: "
+         "any number of hidden indexes in a row, P[0][-1][last()], is setAt at P (the re-resolve loop of __setitem__ by "
+         "induction); several hidden indexes at different places of one path are instances + "
          "differential); the histories and the evaluator hidden_list write through these spellings, also on nodes in the "
          "middle of the path.",
     note="values written are fresh objects (the harness deep-copies); aliasing one object at two positions is outside the model.",
